@@ -51,7 +51,7 @@ PROPS = {
         trusted_base=TRUSTED_VERUS,
         assumptions=[A4, A8, 'world model: the parent link of every item of the document is a ghost map on the receiver; value.remove_from_parent() is an assumed callee (the old parent forgets the item, its parent link becomes None; if the old parent is the receiver its own list loses the item); XmlAttributeValue::try_from accepts exactly text, character references and entity references; HasParent::ancestor is an assumed read-only callee',
                      'XmlDocument::delete_by_id and XmlAttribute::delete_by_id are not extracted (same shape as the element version)', 'c13_tree uses value.remove_from_parent() as a callee with an unconditional effect; c12_remove proves that effect for an item whose parent link names a live node that lists it (the C12 invariant at the previous step) and that the parent link always names an attribute, a document or an element is a precondition there'],
-        not_decided='the tree invariant over whole edit histories (first_child/last_child/previous_sibling/next_sibling agreement, no node beneath itself, at most one document element / document type): these quantify over the live aliasing graph; only the local steps of the two primitives on elements and attributes are decided. Bounded and labelled so: dom.seq_tree (thorough; its single-call part dom.seq1_tree in the quick tier) runs append_child / insert_before / remove_child / replace_child for every (receiver, argument, reference) choice from a pool of 15 live nodes (attached, detached, created, attribute, doctype, fragment, foreign) -- 2 090 single calls and 239 200 two-call sequences -- and compares child lists, parent links and the sibling / first / last views with a reference model of DOM Level 1 after every call',
+        not_decided='the tree invariant over whole edit histories (first_child/last_child/previous_sibling/next_sibling agreement, no node beneath itself, at most one document element / document type): these quantify over the live aliasing graph; only the local steps of the two primitives on elements and attributes are decided. Bounded and labelled so: dom.seq_tree (thorough; its single-call part dom.seq1_tree in the quick tier) runs append_child / insert_before / remove_child / replace_child for every (receiver, argument, reference) choice from a pool of 15 live nodes (attached, detached, created, attribute, doctype, fragment, foreign) -- 2 250 single calls and 239 200 two-call sequences -- and compares child lists, parent links and the sibling / first / last views with a reference model of DOM Level 1 after every call',
         explanation='the local steps that keep child lists and parent links in agreement: XmlElement::insert_by_id, XmlDocument::insert_by_id (with its nested helper add_or_insert) and XmlAttribute::insert_by_id either refuse and change nothing (child list, parent links) or leave the value listed exactly once under this parent with its parent link pointing here; XmlElement::delete_by_id removes exactly that child and clears its parent link, and changes nothing for an unknown id; the trait defaults append / insert_before leave the id of the inserted node resolving to the very handle the child list now owns (Context.id_map), which is what parent_node() of its children goes through; Context::node resolves a registered id for as long as the item itself is alive (unit c12_idmap, over uninterpreted ownership predicates); XmlItem::remove_from_parent (unit c12_remove, over an explicit world of parent links and child lists) takes a node that its live parent lists out of that list and clears its parent link, touches no other list, and changes nothing for a node without a parent; dom XmlNode::previous_sibling_child / next_sibling_child (unit c12_siblings) answer the entry before / after the node in the parent\'s child list, by identity, for every child list of pairwise different items, whatever the order keys are',
     ),
     'C10': dict(
@@ -158,7 +158,7 @@ PROPS = {
         level='proof',
         trusted_base=TRUSTED_VERUS,
         assumptions=[A1, A2, A3, A4, A6, A8, 'c13_tree: the per-type primitives insert_by_id / delete_by_id / child_index / child_by_index / last_child_or_self_id are assumed callees (insert_by_id: hierarchy and type checks first, a refusal changes nothing); the item and the receiver share one document order vector'],
-        not_decided='the per-type primitives under the tree mutators (insert_by_id, delete_by_id of XmlElement/XmlDocument/XmlAttribute: hierarchy and type checks, child-list edits on the live Rc<RefCell> graph -- assumed here; by reading, XmlAttribute::insert_by_id detaches the value before XmlAttributeValue::try_from can refuse it), attribute maps (set_named_item, remove_named_item) and the DOM exception mapping of the tree mutators as PROOFS. Bounded and labelled so: dom.seq_atomic (append / insert_before / remove / replace, 2 090 single calls + 239 200 two-call sequences over a pool of 15 nodes) and dom.attr_seq (set_attribute_node, set_named_item, remove_attribute_node, remove_attribute, remove_named_item, set_attribute: 120 single calls + 14 400 two-call sequences over 4 elements, two of them look-alikes, and 7 attribute nodes) compare every call with a reference model of DOM Level 1: effect, exception class (every class that applies is accepted where several do), nothing changed on refusal, no panic; their single-call parts run in the quick tier',
+        not_decided='the per-type primitives under the tree mutators (insert_by_id, delete_by_id of XmlElement/XmlDocument/XmlAttribute: hierarchy and type checks, child-list edits on the live Rc<RefCell> graph -- assumed here; by reading, XmlAttribute::insert_by_id detaches the value before XmlAttributeValue::try_from can refuse it), attribute maps (set_named_item, remove_named_item) and the DOM exception mapping of the tree mutators as PROOFS. Bounded and labelled so: dom.seq_atomic (append / insert_before / remove / replace, 2 250 single calls + 239 200 two-call sequences over a pool of 15 nodes) and dom.attr_seq (set_attribute_node, set_named_item, remove_attribute_node, remove_attribute, remove_named_item, set_attribute: 120 single calls + 14 400 two-call sequences over 4 elements, two of them look-alikes, and 7 attribute nodes) compare every call with a reference model of DOM Level 1: effect, exception class (every class that applies is accepted where several do), nothing changed on refusal, no panic; their single-call parts run in the quick tier',
         explanation='(1) the HasChildren trait defaults append / insert_before / insert_after / delete, through which every DOM tree mutator goes: a refused call leaves child list and document-order vector unchanged, an unknown reference child is refused, an accepted child is in the list, a removed child loses its key; (2) character-data setters: insert_data, delete_data, replace_data, set_data, append_data on the three node kinds raise IndexSizeErr exactly for an offset past the end, never for a count running past the end, and leave the data unchanged whenever they return Err (atomic failure)',
     ),
     'C02': dict(
